@@ -1284,7 +1284,24 @@ func (ex *Exec) binop(x *ssa.BinOp, reach Term) Term {
 			return app(sBool, "fp.geq", a, b)
 		}
 	case sIface:
-		// interface comparison: identical dynamic type and value (comparable payloads assumed)
+		// interface comparison: identical dynamic type and value; comparing two values of the same uncomparable
+		// dynamic type (a struct holding a slice, map or function) panics at run time
+		if _, xIsConst := x.X.(*ssa.Const); !xIsConst {
+			if _, yIsConst := x.Y.(*ssa.Const); !yIsConst {
+				if it, isIface := x.X.Type().Underlying().(*types.Interface); isIface {
+					var bad []Term
+					for _, t := range ex.P.implementers(x.X.Type()) {
+						if !types.Comparable(t) {
+							bad = append(bad, eq(ifTag(a), tInt(int64(q.so.tag(t)))))
+						}
+					}
+					_ = it
+					if len(bad) > 0 {
+						ex.safety("safe.ifacecmp", reach, not(and(eq(ifTag(a), ifTag(b)), or(bad...))), x, "== on interface values whose common dynamic type is not comparable")
+					}
+				}
+			}
+		}
 		switch x.Op {
 		case token.EQL:
 			return ex.ifaceEq(x.X, x.Y, a, b)
